@@ -9,10 +9,10 @@ squared distances ints in units of 1/4096.  See harness/cont_common.py for the p
   scenario legacy S T xmin xmax ymin ymax        (T = 0|1 torus)
     place a x y | move a x y | remove a | pos a | agents
     nbrs x y r incl | dist x1 y1 x2 y2 | heading x1 y1 x2 y2 | oob x y | adj x y
-  scenario exp S T cap lo hi lo hi [lo hi]
-    new a | set a x y [z] | get a | remove a | agents
-    radius x y [z] r | knn x y [z] k | nir a r | nn a k
-    dists x y [z] [: a b …] | diffs x y [z] [: a b …] | inb x y [z] | correct x y [z]
+  scenario exp S T cap lo hi [lo hi …]            (one lo hi pair per axis: any number of dimensions ≥ 1)
+    new a | set a x… | get a | remove a | agents
+    radius x… r | knn x… k | nir a r | nn a k
+    dists x… [: a b …] | diffs x… [: a b …] | inb x… | correct x…
 -/
 open Mesa.Cont
 
@@ -237,7 +237,7 @@ def stepLine (st : St) (ws : List String) : St × String :=
   | "scenario" :: "exp" :: style :: t :: cap :: rest =>
     match t.toNat?, cap.toNat?, (ints rest).bind pairs with
     | some t, some cap, some dims =>
-      if style ∈ ["a", "l"] ∧ t ≤ 1 ∧ (dims.length = 2 ∨ dims.length = 3) then
+      if style ∈ ["a", "l"] ∧ t ≤ 1 ∧ 1 ≤ dims.length then
         (.exp (einit { dims, torus := t == 1 } cap) dims.length, "ok")
       else (st, "bad-op")
     | _, _, _ => (st, "bad-op")
